@@ -139,18 +139,24 @@ def e2e(ctx):
     _batch = []
     n = 40 if ctx.tier == "quick" else 400
     vcases = []
-    for _ in range(n):
+    for i_ in range(24 + n):
         alg = rng.choice(["HS256", "ES256", "EdDSA"])
         kn = J.ALG_KEYS[alg][0]
         strict = rng.random() < 0.6
         extra = rng.choice(EXTRAS)
         kind = rng.choice(["compact", "flat", "general", "c7797"])
+        both = rng.random() < 0.3
+        if i_ < 24:
+            # always present: the caller gives a registry (with its own parameter declarations) AND an algorithms= list -
+            # the declarations of the registry stay in force whatever else is passed along
+            extra, kind, both = EXTRAS[1 + i_ % 3], ["compact", "flat", "general", "c7797"][i_ % 4], True
+            strict = i_ % 2 == 0
         h = next(H.gen_headers(rng, "jws7797" if kind == "c7797" else "jws", 1, [alg]))
         h["alg"] = alg
         rkind = "jws7797" if kind == "c7797" else "jws"
         if kind == "c7797":
             h.setdefault("b64", False)
-        reg = J.Reg(kind=rkind, strict=strict, allowed=J.ALL_ALGS, extra=H.extra_registry(extra))
+        reg = J.Reg(kind=rkind, strict=strict, allowed=J.ALL_ALGS, extra=H.extra_registry(extra), algorithms=([alg, "HS512"] if both else None))
         try:
             wire.enc_jval(h)
         except wire.Unencodable:
